@@ -143,6 +143,11 @@ var c09Dests = []struct {
 		A int    `json:"a"`
 		B string `json:"b"`
 	}(nil)), false},
+	{"struct{A int;F func();B string}", reflect.TypeOf(struct {
+		A int    `json:"a"`
+		F func() `json:"f"`
+		B string `json:"b"`
+	}{}), false},
 	{"int", reflect.TypeOf(int(0)), false},
 	{"int8", reflect.TypeOf(int8(0)), false},
 	{"uint", reflect.TypeOf(uint(0)), false},
@@ -292,6 +297,8 @@ func c09Docs(c *work.Ctx) []string {
 	docs = append(docs, `0.5`, `-0.5`, `0e1`, `0`, `-0`, `10.5`, `[0.5]`, `{"a":0.5}`, `100`, `-128`)
 	// arrays whose later elements are null or partial objects (what a scratch array holds from an earlier decode shows there)
 	docs = append(docs, `[1,2,3,4,5]`, `[1,2,null,4,null]`, `[{"a":1,"b":"x"},{"a":2,"b":"y"},{"a":3,"b":"z"},{"a":4,"b":"w"}]`, `[{},{"a":7},{},{"b":"q"}]`, `[null,null,null,{"a":1}]`, `["a","b","c","d"]`, `["a",null,null,null]`)
+	// a member no document can fill except with null
+	docs = append(docs, `{"a":1,"f":null,"b":"x"}`, `{"f":true,"b":"y"}`, `{"a":2,"f":false}`, `{"f":[1],"a":3}`)
 	// invalid texts (the stream must reject them for every chunking as well)
 	docs = append(docs, `nxll`, `nul`, `tru`, `[true,fa1se]`, `"\uZZZZ"`, `0x1`, `[1,]`, `{"a":1,}`, `[1 2]`, `{"a" 1}`, `"abc`, `[`, `{"a":`, `01`, `1.`, `-`, "\"a\nb\"", `{"a":1}}`, `[1]]`, `1 2`, `{"a":tru}`, `[nul]`, `"\x"`, `"\u12"`)
 	return docs
